@@ -128,12 +128,18 @@ func Describe(b []byte) View {
 }
 
 func describeQuote(v *View, v6 bool, body []byte) {
-	qip, qpl, err := ParseIP(body)
+	// The quoted header is laid out according to the OUTER family. For IPv4 the version nibble of the quote
+	// is not demanded (devices and decoders do not validate it); the header length nibble must be sane.
+	q := body
+	if !v6 && len(q) >= 1 {
+		q = append([]byte{4<<4 | q[0]&0xf}, q[1:]...)
+	}
+	qip, qpl, err := ParseIP(q)
 	if err != nil || qip.V6 != v6 {
 		return
 	}
 	// the quote is usually truncated: re-slice without trusting the stated length
-	qpl = body[qip.HdrLen:]
+	qpl = q[qip.HdrLen:]
 	v.QSrc, v.QDst = qip.Src.String(), qip.Dst.String()
 	v.QProto, v.QTTL, v.QIPID = int(qip.Proto), int(qip.TTL), int(qip.ID)
 	if v6 {
